@@ -126,7 +126,7 @@ class Report:
         self.inconclusive.extend(st.get("inconclusive", []))
         self.harness_errors.extend(st.get("harness_errors", []))
         for v in st.get("violations", []):
-            self.violations.append(v)
+            self.violations.append(dict(v, replay=jsonable(v.get("replay", {}))))
         if name is not None:
             d = self.sub.setdefault(name, {"paths": 0, "forks": 0, "obligations": 0, "discharged": 0,
                                            "validated": 0, "solver_s": 0.0, "wall_s": 0.0})
